@@ -1322,7 +1322,9 @@ func (f *Field) importValue(columnIDs []uint64, values []int64, options *ImportO
 			baseValues[i] = value - bsig.Base
 		}
 
-		if err := frag.importValue(data.ColumnIDs, baseValues, requiredDepth, options.Clear); err != nil {
+		// Write every bit row the field has, not only those this batch
+		// needs: a column may hold a wider value that has to be overwritten.
+		if err := frag.importValue(data.ColumnIDs, baseValues, bsig.BitDepth, options.Clear); err != nil {
 			return err
 		}
 	}
